@@ -3,7 +3,9 @@ PROPERTY = {
     'id': 'C08',
     'contract_modules': ['doctest_example', 'doctest_part', 'parser'],
     'functions': [_Q + 'failed_line_offset', _Q + 'failed_lineno',
-                  'xdoctest.parser:DoctestParser._package_groups#offsets', 'xdoctest.parser:DoctestParser._package_chunk'],
+                  'xdoctest.parser:DoctestParser._package_groups#offsets', 'xdoctest.parser:DoctestParser._package_chunk',
+                  'xdoctest.core:parse_freeform_docstr_examples#offsets', 'xdoctest.parser:DoctestParser.parse#items',
+                  'xdoctest.parser:DoctestParser.__init__', 'xdoctest.core:parse_freeform_docstr_examples.doctest_from_parts', 'xdoctest.doctest_example:DocTest.__init__', 'xdoctest.core:parse_freeform_docstr_examples.doctest_from_parts#call'],
     'clauses': {
         'P': ['failed_line_offset / failed_lineno: import failure -> the doctest line; got/want mismatch -> first line of the want '
               '(part offset + number of source lines); repr/await failure -> last source line; ordinary exception -> part offset + '
